@@ -162,6 +162,8 @@ pub fn plan_run(verif_seed: u64, run_index: u64, lim: &Limits) -> Plan {
 pub struct RunResult {
     pub outcomes: Vec<Outcome>,
     pub decisions: Vec<u32>,
+    /// Length of the decision log at the start of each history op.
+    pub marks: Vec<usize>,
     pub stats: Stats,
     pub op_hashes: Vec<(u64, u64, u64)>,
 }
@@ -180,7 +182,9 @@ pub fn exec_sim(plan: &Plan, replay: Option<Vec<u32>>, watchdog_s: u64) -> RunRe
     let sim = Sim::new(cfg, plan.sim_seed, replay);
     sim.install();
     let mut outcomes = vec![];
+    let mut marks = vec![];
     for h in &plan.history {
+        marks.push(sim.decisions_len());
         sim.set_pool(h.pool.min(plan.pool_sizes.len() - 1));
         sim.set_modes(h.split, h.sched, h.hooks);
         outcomes.push(s_sim::run_op(&plan.case, h.op));
@@ -189,6 +193,7 @@ pub fn exec_sim(plan: &Plan, replay: Option<Vec<u32>>, watchdog_s: u64) -> RunRe
     let r = RunResult {
         outcomes,
         decisions: sim.decisions(),
+        marks,
         stats: sim.stats(),
         op_hashes: sim.op_hashes(),
     };
@@ -244,6 +249,7 @@ pub fn run_plan(plan: &Plan, replay: Option<Vec<u32>>, watchdog_s: u64, check_re
             let r = RunResult {
                 outcomes: vec![],
                 decisions: vec![],
+                marks: vec![],
                 stats: Stats::default(),
                 op_hashes: vec![],
             };
@@ -398,52 +404,123 @@ pub struct Minimised {
 }
 
 /// Greedy shrinking; a candidate is accepted only if the same class of
-/// violation persists.
-pub fn minimise(plan: &Plan, decisions: &[u32], v: &Violation, watchdog_s: u64, budget: u64) -> Minimised {
+/// violation persists. A candidate is first tried with the recorded decisions
+/// (cut to fit) and, because a structural change makes them line up badly,
+/// then with a few fresh decision streams.
+pub fn minimise(plan: &Plan, decisions: &[u32], marks: &[usize], v: &Violation, watchdog_s: u64, budget: u64) -> Minimised {
     let mut best_plan = plan.clone();
     let mut best_dec = decisions.to_vec();
+    let mut best_marks = marks.to_vec();
     let mut best_v = v.clone();
     let mut steps = vec![];
     let mut evals = 0u64;
 
-    let mut try_cand = |p: &Plan, d: &[u32], evals: &mut u64| -> Option<(Vec<u32>, Violation)> {
-        if *evals >= budget {
-            return None;
+    struct Found {
+        plan: Plan,
+        dec: Vec<u32>,
+        marks: Vec<usize>,
+        v: Violation,
+    }
+    let try_cand = |p: &Plan, d: &[u32], fresh: u64, evals: &mut u64| -> Option<Found> {
+        for attempt in 0..=fresh {
+            if *evals >= budget {
+                return None;
+            }
+            *evals += 1;
+            let mut p = p.clone();
+            let replay = if attempt == 0 {
+                Some(d.to_vec())
+            } else {
+                p.sim_seed = mix(p.sim_seed, attempt, 0x5EED);
+                None
+            };
+            let (r, nv) = run_plan(&p, replay, watchdog_s, false);
+            if let Some(nv) = nv {
+                if same_class(&nv, v) {
+                    return Some(Found {
+                        plan: p,
+                        dec: r.decisions,
+                        marks: r.marks,
+                        v: nv,
+                    });
+                }
+            }
         }
-        *evals += 1;
-        let (r, nv) = run_plan(p, Some(d.to_vec()), watchdog_s, false);
-        match nv {
-            Some(nv) if same_class(&nv, v) => Some((r.decisions, nv)),
-            _ => None,
-        }
+        None
     };
+    macro_rules! accept {
+        ($f:expr, $msg:expr) => {{
+            let f: Found = $f;
+            steps.push($msg);
+            best_plan = f.plan;
+            best_dec = f.dec;
+            best_marks = f.marks;
+            best_v = f.v;
+        }};
+    }
 
-    // 1. drop ops from the history (keep the failing one)
-    let mut i = 0;
-    while i < best_plan.history.len() {
-        if best_plan.history.len() == 1 {
-            break;
+    // 1. drop ops from the history together with their decision segments;
+    //    first try to keep the failing op alone
+    if best_plan.history.len() > 1 && best_v.op_index < best_plan.history.len() && best_marks.len() == best_plan.history.len() {
+        let i = best_v.op_index;
+        let mut p = best_plan.clone();
+        p.history = vec![best_plan.history[i].clone()];
+        let lo = best_marks[i];
+        let hi = best_marks.get(i + 1).copied().unwrap_or(best_dec.len());
+        let d = best_dec[lo..hi].to_vec();
+        if let Some(f) = try_cand(&p, &d, 3, &mut evals) {
+            accept!(f, format!("kept only op {}", i));
         }
+    }
+    let mut i = 0;
+    while i < best_plan.history.len() && best_plan.history.len() > 1 {
         let mut p = best_plan.clone();
         p.history.remove(i);
-        // with an op removed the recorded decisions no longer line up: re-search with the PRNG too
-        let cand = try_cand(&p, &best_dec, &mut evals);
-        if let Some((d, nv)) = cand {
-            steps.push(format!("dropped op {}", i));
-            best_plan = p;
-            best_dec = d;
-            best_v = nv;
+        let mut d = best_dec.clone();
+        if best_marks.len() == best_plan.history.len() {
+            let lo = best_marks[i];
+            let hi = best_marks.get(i + 1).copied().unwrap_or(best_dec.len());
+            d.drain(lo..hi);
+        }
+        if let Some(f) = try_cand(&p, &d, 1, &mut evals) {
+            accept!(f, format!("dropped op {}", i));
         } else {
             i += 1;
         }
     }
 
-    // 2. drop generators (halves, then singles)
+    // 1b. prefer simpler, more aggressive modes (they reproduce more reliably
+    //     on smaller inputs than e.g. PCT with far-away change points)
+    for i in 0..best_plan.history.len() {
+        for (sp, sc) in [
+            (SplitMode::PerItem, SchedMode::Rev),
+            (SplitMode::PerItem, SchedMode::LeafRandom),
+            (SplitMode::PerItem, SchedMode::Interleave),
+            (SplitMode::Adaptive, SchedMode::Interleave),
+            (SplitMode::Adaptive, SchedMode::LeafRandom),
+        ] {
+            if best_plan.history[i].split == sp && best_plan.history[i].sched == sc {
+                break;
+            }
+            let mut p = best_plan.clone();
+            p.history[i].split = sp;
+            p.history[i].sched = sc;
+            if sc == SchedMode::Interleave {
+                p.mean_gap = 1;
+            }
+            if let Some(f) = try_cand(&p, &best_dec, 2, &mut evals) {
+                accept!(f, format!("op {}: modes -> {}/{}", i, split_name(sp), sched_name(sc)));
+                break;
+            }
+        }
+    }
+
+    // 2. drop generators (big chunks first)
     let mut chunk = (best_plan.case.gens.len() / 2).max(1);
-    while chunk >= 1 && best_plan.case.gens.len() > 1 {
+    loop {
         let mut start = 0;
         let mut progressed = false;
-        while start < best_plan.case.gens.len() && best_plan.case.gens.len() > 1 {
+        while start < best_plan.case.gens.len() && best_plan.case.gens.len() > 1 && evals < budget {
             let end = (start + chunk).min(best_plan.case.gens.len());
             if end - start >= best_plan.case.gens.len() {
                 break;
@@ -453,22 +530,18 @@ pub fn minimise(plan: &Plan, decisions: &[u32], v: &Violation, watchdog_s: u64, 
             if let Some(m) = &mut p.case.mask {
                 m.drain(start..end);
             }
-            if let Some((d, nv)) = try_cand(&p, &best_dec, &mut evals) {
-                steps.push(format!("dropped generators {}..{}", start, end));
-                best_plan = p;
-                best_dec = d;
-                best_v = nv;
+            if let Some(f) = try_cand(&p, &best_dec, 3, &mut evals) {
+                accept!(f, format!("dropped generators {}..{}", start, end));
                 progressed = true;
             } else {
                 start += chunk;
             }
         }
-        if chunk == 1 && !progressed {
+        if evals >= budget || (chunk == 1 && !progressed) {
             break;
         }
-        chunk = if chunk > 1 { chunk / 2 } else { 1 };
-        if evals >= budget {
-            break;
+        if chunk > 1 {
+            chunk /= 2;
         }
     }
 
@@ -480,49 +553,44 @@ pub fn minimise(plan: &Plan, decisions: &[u32], v: &Violation, watchdog_s: u64, 
             }
             let mut p = best_plan.clone();
             p.pool_sizes[pi] = k;
-            if let Some((d, nv)) = try_cand(&p, &best_dec, &mut evals) {
-                steps.push(format!("pool {} -> {} workers", pi, k));
-                best_plan = p;
-                best_dec = d;
-                best_v = nv;
+            if let Some(f) = try_cand(&p, &best_dec, 2, &mut evals) {
+                accept!(f, format!("pool {} -> {} workers", pi, k));
                 break;
             }
         }
     }
 
-    // 4. turn hook preemption off, simplify modes
+    // 4. turn hook preemption off
     for i in 0..best_plan.history.len() {
         if best_plan.history[i].hooks {
             let mut p = best_plan.clone();
             p.history[i].hooks = false;
-            if let Some((d, nv)) = try_cand(&p, &best_dec, &mut evals) {
-                steps.push(format!("op {}: hooks off", i));
-                best_plan = p;
-                best_dec = d;
-                best_v = nv;
+            if let Some(f) = try_cand(&p, &best_dec, 1, &mut evals) {
+                accept!(f, format!("op {}: hooks off", i));
             }
         }
     }
 
     // 5. zero decision chunks (towards the sequential schedule)
     let mut chunk = (best_dec.len() / 2).max(1);
-    while chunk >= 1 && !best_dec.is_empty() {
+    while !best_dec.is_empty() && evals < budget {
         let mut start = 0;
-        while start < best_dec.len() {
+        while start < best_dec.len() && evals < budget {
             let end = (start + chunk).min(best_dec.len());
             if best_dec[start..end].iter().any(|x| *x != 0) {
                 let mut d = best_dec.clone();
                 for x in &mut d[start..end] {
                     *x = 0;
                 }
-                if let Some((nd, nv)) = try_cand(&best_plan, &d, &mut evals) {
-                    best_dec = nd;
-                    best_v = nv;
+                if let Some(f) = try_cand(&best_plan, &d, 0, &mut evals) {
+                    best_dec = f.dec;
+                    best_marks = f.marks;
+                    best_v = f.v;
                 }
             }
             start = end;
         }
-        if chunk == 1 || evals >= budget {
+        if chunk == 1 {
             break;
         }
         chunk /= 2;
@@ -532,6 +600,7 @@ pub fn minimise(plan: &Plan, decisions: &[u32], v: &Violation, watchdog_s: u64, 
         best_dec.len(),
         best_dec.iter().filter(|x| **x != 0).count()
     ));
+    let _ = &best_marks;
 
     Minimised {
         plan: best_plan,
